@@ -1,1 +1,2 @@
 pub mod sink;
+pub mod net;
